@@ -27,6 +27,7 @@ def run(prog, chk):
     accumulator(prog, chk)
     from props import geomalg
     geomalg.check_sites(prog, chk, "C12")
+    geomalg.check_float_truncation(prog, chk)  # no float is cut down to an integer on the way (a truncated distance / coordinate makes different candidates tie)
     geomalg.check(prog, chk, "C12", floor=17)
     from props import C11
     C11.shape_pipeline(prog, chk)  # surround/inside/margin are consumed only in the shape pipeline
